@@ -755,6 +755,9 @@ impl Engine {
         let artifacts = fuzz_dir.join("artifacts").join(target);
         let _ = std::fs::remove_dir_all(&artifacts);
         let seed = (self.seed % 0xffff_fffe) + 1;
+        // bounded by executions and by time, whichever comes first (reaching the time bound is
+        // the end of the exploration, not a verdict)
+        let max_time: u64 = std::env::var("VERIF_FUZZ_TIME_S").ok().and_then(|v| v.parse().ok()).unwrap_or(600);
         let t0 = Instant::now();
         let out = std::process::Command::new("cargo")
             .current_dir(&fuzz_dir)
@@ -768,6 +771,7 @@ impl Engine {
             .arg("--")
             .args([
                 format!("-runs={runs}"),
+                format!("-max_total_time={max_time}"),
                 format!("-seed={seed}"),
                 "-len_control=0".to_string(),
                 "-max_len=4096".to_string(),
@@ -813,7 +817,7 @@ impl Engine {
         let corpus_n = std::fs::read_dir(&work).map(|rd| rd.count()).unwrap_or(0);
         self.record_external(
             &format!("fuzz-{target}"),
-            &format!("libFuzzer campaign on cargo-fuzz target {target}: -runs={runs} -seed={seed} -len_control=0 from the committed seed corpus; the semantic oracle is inside the target; non-trivial = inputs that reached new coverage (kept in the work corpus)"),
+            &format!("libFuzzer campaign on cargo-fuzz target {target}: -runs={runs} -max_total_time={max_time} -seed={seed} -len_control=0 from the committed seed corpus; the semantic oracle is inside the target; non-trivial = inputs that reached new coverage (kept in the work corpus)"),
             executed,
             (0..corpus_n as u64).map(|i| hash_of(&(target, i))).collect(),
             vec![],
